@@ -105,6 +105,12 @@ pub type VResult<T> = core::result::Result<T, VaultError>;
 pub type CResult<T> = core::result::Result<T, CoreError>;
 pub type StdResult<T, E> = core::result::Result<T, E>;
 
+/// `impl View for Uuid` (prelude/types.rs gives the struct): its 16 bytes
+impl View for Uuid {
+    type V = Seq<u8>;
+    open spec fn view(&self) -> Seq<u8> { self.0@ }
+}
+
 // ---- ordered map semantics over a sequence of (key, value) -------------------
 pub open spec fn m_has<K, V>(s: Seq<(K, V)>, k: K) -> bool {
     exists|i: int| 0 <= i < s.len() && (#[trigger] s[i]).0 == k
